@@ -20,6 +20,18 @@ from ref import tlv8
 
 PROP = "C02"
 LEAN_MODULE = "Props.C02"
+
+
+def extract(ctx):
+    """regenerate the protocol-constant table from the source under check"""
+    import sys as _sys
+
+    from common import LEAN, REPO, VERIF
+
+    _sys.path.insert(0, str(VERIF / "extract"))
+    import handler_consts
+
+    handler_consts.write(REPO, LEAN)
 TRUSTED = [
     "Lean 4.33 kernel; axioms propext, Classical.choice, Quot.sound only (audited by #print axioms)",
     "cryptographic hardness (Ed25519 unforgeability, ChaCha20-Poly1305 integrity, X25519/HKDF collision freedom) enters "
